@@ -114,10 +114,12 @@ class Ctx:
 
     def guard(self, check, *args, **kw) -> None:
         """Run one clause; an analysis error in it is deferred so that the other clauses still report."""
-        from . import AnalysisError
+        from . import AnalysisError, SkipClause
 
         try:
             check(*args, **kw)
+        except SkipClause as exc:
+            self.note(f"structural clause skipped (familiar spelling not found; decided by the evaluated clause named): {exc}")
         except AnalysisError as exc:
             self.defer(str(exc))
 
